@@ -37,6 +37,7 @@ func runC03(c *Ctx) {
 			{"lossless.CodeLengthExtraBits", "vp8l.repeatBits", "extra bits of the repeat codes 16/17/18"},
 			{"lossless.CodeLengthRepeatOffsets", "vp8l.repeatOffsets", "offsets of the repeat codes 16/17/18"},
 		}, "A8-tables")
+		bitBudget(c, p)
 		relation(c, "A8-relations", "bitio.kBitMask", repo, []string{"bitio.kBitMask"}, "kBitMask[n] = (1<<n) - 1", func(t [][]int64) (bool, string) {
 			for n, v := range t[0] {
 				if v != (int64(1)<<uint(n))-1 {
